@@ -871,6 +871,30 @@ fn c03_pkt_packet_any_bytes() {
     p_packet::<40>();
 }
 
+/// C03 be_packet restricted to SHORT-header datagrams (first byte bit 7 clear) of <= 32 bytes, dcid_len
+/// 0..=20: the cheap quick-tier instance of c03_pkt_packet_any_bytes for the 1-RTT branch (type bits,
+/// dcid, the >= 20-byte sampling guard counted AFTER the connection id, packet = rest of the datagram).
+fn p_packet_short<const N: usize>() {
+    let (arr, len) = any_input::<N>();
+    kani::assume(len == 0 || arr[0] & 0x80 == 0);
+    let dcid_len: usize = kani::any();
+    kani::assume(dcid_len <= MAX_CID_SIZE);
+    let reference = ref_packet(&arr, len, dcid_len);
+    packet_case(&arr, len, dcid_len, reference);
+    kani::cover!(matches!(reference, RefPkt::Data(RefTy::Short(_), ..)), "1-RTT packet");
+    kani::cover!(matches!(reference, RefPkt::UnderSampling(RefTy::Short(_), 19)), "19 bytes after the dcid: cannot be sampled");
+}
+
+#[kani::proof]
+#[kani::stub(crate::packet::header::long::io::be_version_negotiation, stub_vn_excluded)]
+#[kani::stub(core::slice::index::slice_index_fail, stub_slice_index_fail)]
+#[kani::stub(core::fmt::write, stub_fmt_write)]
+#[kani::stub(crate::varint::be_varint, model_be_varint)]
+#[kani::unwind(6)]
+fn c03_pkt_packet_short_any_bytes() {
+    p_packet_short::<32>();
+}
+
 /// Version Negotiation datagrams of <= 24 bytes (up to 4 versions after two empty cids).
 #[kani::proof]
 #[kani::stub(core::slice::index::slice_index_fail, stub_slice_index_fail)]
